@@ -7,6 +7,7 @@ package main
 
 import (
 	"fmt"
+	"regexp"
 	"go/ast"
 	"go/token"
 	"go/types"
@@ -57,6 +58,7 @@ type SpecFn struct {
 	Obj    *types.Func
 	// names of parameters in order with the role each one plays
 	Roles []string
+	Owner string // key of the contract the clause belongs to ("" for predicates, lemmas, invariants)
 }
 
 func funcKeyOfDecl(pkgShort string, d *ast.FuncDecl) string {
@@ -167,6 +169,34 @@ func LoadProgram(repo, mirror string) (*Program, error) {
 		overlay[filepath.Join(repo, dirOf[short], "zz_spec_synth_verif.go")] = []byte(src)
 	}
 	pkgs2, err := loadPkgs(repo, overlay)
+	for attempt := 0; err != nil && attempt < 6; attempt++ {
+		// a contract whose clauses no longer type-check against the code (the function's signature or
+		// the fields it mentions changed) is stale: drop it, record it, and try again
+		stale := staleOwners(err.Error(), synth, specIndex)
+		if len(stale) == 0 {
+			break
+		}
+		for _, k := range stale {
+			if c := cs.Funcs[k]; c != nil {
+				cs.Stale = append(cs.Stale, fmt.Sprintf("%s (%s:%d): specification no longer type-checks against the code", k, c.File, c.Line))
+				delete(cs.Funcs, k)
+			}
+		}
+		for k := range overlay {
+			if strings.HasSuffix(k, "zz_spec_synth_verif.go") {
+				delete(overlay, k)
+			}
+		}
+		prog1 = indexProgram(repo, pkgs1, cs)
+		synth, specIndex, err = synthesize(prog1)
+		if err != nil {
+			return nil, err
+		}
+		for short, src := range synth {
+			overlay[filepath.Join(repo, dirOf[short], "zz_spec_synth_verif.go")] = []byte(src)
+		}
+		pkgs2, err = loadPkgs(repo, overlay)
+	}
 	if err != nil {
 		return nil, fmt.Errorf("specification expressions do not type-check against the code:\n%v\n%s", err, explainSynthErrors(err, synth))
 	}
@@ -335,6 +365,7 @@ func synthesize(prog *Program) (map[string]string, map[string]*SpecFn, error) {
 		return b
 	}
 	counter := 0
+	curOwner := ""
 	// every package with a contract file gets a prelude
 	for short := range prog.CS.Files {
 		get(short)
@@ -362,7 +393,7 @@ func synthesize(prog *Program) (map[string]string, map[string]*SpecFn, error) {
 		name := fmt.Sprintf("spec_%d", counter)
 		c.SpecFunc = pkgShort + "." + name
 		fmt.Fprintf(get(pkgShort), "func %s%s(%s) %s { return %s } // %s %s:%d\n", name, tparams, params, ret, g, c.Kind, c.File, c.Line)
-		index[pkgShort+"."+name] = &SpecFn{Name: name, Clause: c, Pkg: pkgShort, Roles: roles}
+		index[pkgShort+"."+name] = &SpecFn{Name: name, Clause: c, Pkg: pkgShort, Roles: roles, Owner: curOwner}
 		return nil
 	}
 	var keys []string
@@ -373,20 +404,25 @@ func synthesize(prog *Program) (map[string]string, map[string]*SpecFn, error) {
 	for _, key := range keys {
 		con := prog.CS.Funcs[key]
 		fi := prog.Funcs[key]
+		curOwner = key
 		var sigParams, tparams string
 		var roles []string
 		var pkg *packages.Package
 		if fi != nil {
 			pkg = fi.Pkg
-			sigParams, tparams, roles = signatureParams(fi.Pkg, fi.Obj, fi.Decl)
+			sigParams, tparams, roles = signatureParams(fi.Pkg, fi.Obj, fi.Decl, con.ParamNames)
 		} else {
 			// interface method?
 			obj := prog.lookupInterfaceMethod(con)
 			if obj == nil {
-				return nil, nil, fmt.Errorf("%s:%d: contract key %q no longer matches any function (engine error, not a violation)", con.File, con.Line, key)
+				// the function was removed or renamed: the contract is stale; its obligations disappear
+				// and are reported through the baseline comparison (property no longer established)
+				prog.CS.Stale = append(prog.CS.Stale, fmt.Sprintf("%s (%s:%d)", key, con.File, con.Line))
+				delete(prog.CS.Funcs, key)
+				continue
 			}
 			pkg = prog.Pkgs[con.Pkg]
-			sigParams, tparams, roles = signatureParams(pkg, obj, nil)
+			sigParams, tparams, roles = signatureParams(pkg, obj, nil, con.ParamNames)
 		}
 		for _, c := range con.Requires {
 			if err := emit(con.Pkg, c, tparams, sigParams, roles, "bool"); err != nil {
@@ -395,6 +431,11 @@ func synthesize(prog *Program) (map[string]string, map[string]*SpecFn, error) {
 		}
 		for _, c := range con.Ensures {
 			if err := emit(con.Pkg, c, tparams, sigParams, roles, "bool"); err != nil {
+				return nil, nil, err
+			}
+		}
+		if con.ErrIgnorable != nil {
+			if err := emit(con.Pkg, con.ErrIgnorable, tparams, sigParams, roles, "bool"); err != nil {
 				return nil, nil, err
 			}
 		}
@@ -434,16 +475,41 @@ func synthesize(prog *Program) (map[string]string, map[string]*SpecFn, error) {
 				}
 				continue
 			}
-			site := findCallSite(prog, fi, c.At)
-			if site == nil {
+			sites := findCallSites(prog, fi, c.At)
+			if len(sites) == 0 {
 				return nil, nil, fmt.Errorf("%s:%d: at-clause names call %q which does not exist in %s (contract key no longer matches; engine error)", c.File, c.Line, c.At, key)
 			}
+			// with a wildcard the locals visible at the LAST matching call are offered (a clause may only use
+			// names that are in scope at every matching call; go/types reports otherwise)
+			site := sites[0]
 			lparams, lroles := localsParams(pkg, fi, site, sigParams, roles)
+			// the arguments of the call are visible as arg0, arg1, ...
+			if ce, ok := site.(*ast.CallExpr); ok {
+				q := qualifierFor(pkg.Types)
+				for i, a := range ce.Args {
+					at := pkg.TypesInfo.TypeOf(a)
+					if at == nil {
+						continue
+					}
+					if _, isTuple := at.(*types.Tuple); isTuple {
+						continue
+					}
+					if b, ok := at.(*types.Basic); ok && b.Info()&types.IsUntyped != 0 {
+						at = types.Default(at)
+					}
+					if at == types.Typ[types.UntypedNil] {
+						continue
+					}
+					lparams += fmt.Sprintf(", arg%d %s", i, types.TypeString(at, q))
+					lroles = append(lroles, fmt.Sprintf("callarg:arg%d", i))
+				}
+			}
 			if err := emit(con.Pkg, c, tparams, lparams, lroles, "bool"); err != nil {
 				return nil, nil, err
 			}
 		}
 	}
+	curOwner = ""
 	for _, lm := range prog.CS.Lemmas {
 		for _, c := range append(append([]*Clause{}, lm.Requires...), lm.Ensures...) {
 			if err := emit(lm.Pkg, c, "", lm.Params, nil, "bool"); err != nil {
@@ -453,6 +519,11 @@ func synthesize(prog *Program) (map[string]string, map[string]*SpecFn, error) {
 	}
 	for _, ti := range prog.CS.TypeInvs {
 		if err := emit(ti.Pkg, ti.Clause, "", ti.Var+" *"+ti.Type, []string{"bind:" + ti.Var}, "bool"); err != nil {
+			return nil, nil, err
+		}
+	}
+	for _, rv := range prog.CS.Reveals {
+		if err := emit(rv.Pkg, rv.Clause, "", rv.Params, nil, "bool"); err != nil {
 			return nil, nil, err
 		}
 	}
@@ -520,7 +591,7 @@ func (prog *Program) lookupInterfaceMethod(con *Contract) *types.Func {
 
 // signatureParams renders receiver, parameters and results of a function as a
 // Go parameter list for the synthetic specification functions.
-func signatureParams(pkg *packages.Package, obj *types.Func, decl *ast.FuncDecl) (params, tparams string, roles []string) {
+func signatureParams(pkg *packages.Package, obj *types.Func, decl *ast.FuncDecl, names []string) (params, tparams string, roles []string) {
 	sig := obj.Type().(*types.Signature)
 	q := qualifierFor(pkg.Types)
 	var parts []string
@@ -544,6 +615,8 @@ func signatureParams(pkg *packages.Package, obj *types.Func, decl *ast.FuncDecl)
 		} else {
 			add("this", r.Type(), "recv")
 		}
+		// the receiver is also visible under the uniform name `self`
+		add("self", r.Type(), "recv")
 		// type parameters of the receiver
 		if rtp := sig.RecvTypeParams(); rtp != nil && rtp.Len() > 0 {
 			var tps []string
@@ -565,6 +638,9 @@ func signatureParams(pkg *packages.Package, obj *types.Func, decl *ast.FuncDecl)
 		name := p.Name()
 		if name == "" || name == "_" {
 			name = fmt.Sprintf("p%d", i)
+			if i < len(names) && names[i] != "" && names[i] != "_" {
+				name = names[i]
+			}
 		}
 		t := p.Type()
 		if sig.Variadic() && i == sig.Params().Len()-1 {
@@ -673,6 +749,25 @@ func localsParams(pkg *packages.Package, fi *FuncInfo, node ast.Node, sigParams 
 }
 
 // findCallSite locates the n-th call (source order) of a callee named like "gen.Assign" or "Assign".
+// findCallSites: all calls matching "name#n" (the n-th) or "name#*" (every call of that name)
+func findCallSites(prog *Program, fi *FuncInfo, at string) []ast.Node {
+	if !strings.HasSuffix(at, "#*") {
+		if n := findCallSite(prog, fi, at); n != nil {
+			return []ast.Node{n}
+		}
+		return nil
+	}
+	name := strings.TrimSuffix(at, "#*")
+	var out []ast.Node
+	ast.Inspect(fi.Decl.Body, func(x ast.Node) bool {
+		if ce, ok := x.(*ast.CallExpr); ok && callName(ce) == name {
+			out = append(out, ce)
+		}
+		return true
+	})
+	return out
+}
+
 func findCallSite(prog *Program, fi *FuncInfo, at string) ast.Node {
 	name, n := at, 1
 	if i := strings.Index(at, "#"); i >= 0 {
@@ -705,10 +800,81 @@ func callName(ce *ast.CallExpr) string {
 	case *ast.Ident:
 		return f.Name
 	case *ast.SelectorExpr:
-		if x, ok := f.X.(*ast.Ident); ok {
-			return x.Name + "." + f.Sel.Name
+		if chain, ok := selectorChain(f.X); ok {
+			return chain + "." + f.Sel.Name
 		}
 		return f.Sel.Name
 	}
 	return ""
+}
+
+// selectorChain renders a.b.c when the expression is a chain of identifiers
+func selectorChain(e ast.Expr) (string, bool) {
+	switch e := e.(type) {
+	case *ast.Ident:
+		return e.Name, true
+	case *ast.SelectorExpr:
+		if c, ok := selectorChain(e.X); ok {
+			return c + "." + e.Sel.Name, true
+		}
+	}
+	return "", false
+}
+
+// staleOwners maps type errors inside the synthetic specification files back to the contracts
+// whose clauses caused them.
+func staleOwners(errText string, synth map[string]string, index map[string]*SpecFn) []string {
+	set := map[string]bool{}
+	re := regexp.MustCompile(`([^\s:]+)/zz_spec_synth_verif\.go:(\d+):\d+`)
+	dirToShort := map[string]string{}
+	for d, short := range pkgDirs {
+		dirToShort[d] = short
+	}
+	for _, m := range re.FindAllStringSubmatch(errText, -1) {
+		dir := m[1]
+		var short string
+		for d, sh := range pkgDirs {
+			if d == "." {
+				if !strings.Contains(strings.TrimPrefix(dir, "/"), "/") || strings.HasSuffix(dir, "/repo") {
+					// root package candidates are resolved below by exact suffix
+				}
+				continue
+			}
+			if strings.HasSuffix(dir, "/"+d) {
+				if len(d) > len(short) || short == "" {
+					short = sh
+				}
+			}
+		}
+		if short == "" {
+			short = "goverter"
+		}
+		src, ok := synth[short]
+		if !ok {
+			continue
+		}
+		var ln int
+		fmt.Sscanf(m[2], "%d", &ln)
+		lines := strings.Split(src, "\n")
+		if ln < 1 || ln > len(lines) {
+			continue
+		}
+		line := lines[ln-1]
+		if !strings.HasPrefix(line, "func spec_") {
+			continue
+		}
+		name := line[len("func "):]
+		if i := strings.IndexAny(name, "[("); i >= 0 {
+			name = name[:i]
+		}
+		if sf, ok := index[short+"."+name]; ok && sf.Owner != "" {
+			set[sf.Owner] = true
+		}
+	}
+	var out []string
+	for k := range set {
+		out = append(out, k)
+	}
+	sort.Strings(out)
+	return out
 }
